@@ -35,6 +35,7 @@ func VerifC15Wire(writes int, level int) {
 	// written an early flush commits an implicit 200 like on a bare connection)
 	flushEarly := explicit && verifrt.Bool("flushRightAfterHeader")
 	flushLate := verifrt.Bool("flushAfterBody")
+	interimFirst := verifrt.Bool("interim103BeforeTheFinalStatus")
 	sizes := make([]int, writes)
 	total := 0
 	for i := range sizes {
@@ -63,6 +64,9 @@ func VerifC15Wire(writes int, level int) {
 			if f, ok := w.(http.Flusher); ok {
 				f.Flush()
 			}
+		}
+		if interimFirst {
+			w.WriteHeader(http.StatusEarlyHints) // an informational response precedes the final one
 		}
 		if explicit {
 			w.WriteHeader(status)
